@@ -50,6 +50,10 @@ def impl_law(scenario, model, k):
             scene, its = scenario._generateInner(k, 0, None)
         except RejectionException:
             return mdist.REJECT
+        except (explorer.HarnessError, OutOfFragment):
+            raise
+        except Exception as e:  # noqa: BLE001 - an escaping exception is an observable outcome
+            return ("EXCEPTION", type(e).__name__)
         return (observe_scene(scene, model), its)
 
     law = {}
